@@ -145,7 +145,10 @@ def main():
         if j.get("instances"):
             r["variants"] = {}
             for how in ["strict"] + list(j.get("variants", [])):
-                sch = schema if how in ("strict", "pyunique") else relax(schema, how, j.get("user_patterns", []))
+                sch = schema
+                for part in how.split("+"):          # several relaxed readings at once: "anyof+notblank"
+                    if part not in ("strict", "pyunique"):
+                        sch = relax(sch, part, j.get("user_patterns", []))
                 doc = denull(sch)
                 if j.get("named"):
                     name, ref = j["named"]
@@ -161,7 +164,7 @@ def main():
                     doc = root
                 out = []
                 try:
-                    ev = (PyTypedPyUnique if how == "pyunique" else PyTyped)(doc)
+                    ev = (PyTypedPyUnique if "pyunique" in how.split("+") else PyTyped)(doc)
                     for x in j["instances"]:
                         try:
                             out.append(ev.is_valid(x))
